@@ -691,7 +691,8 @@ class Continuous:
     @staticmethod
     def from_dataset(dset, y_label="y", calibration=None):
         start = dset.attrs["Start time (ns)"]
-        dt = int(1e9 / dset.attrs["Sample rate (Hz)"])  # ns
+        # round: 1e9 / (1e9 / dt) can land just below dt (e.g. dt = 55 ns) and would be truncated
+        dt = int(round(1e9 / dset.attrs["Sample rate (Hz)"]))  # ns
         return Slice(
             Continuous(dset, start, dt),
             labels={"title": dset.name.strip("/"), "y": y_label},
